@@ -819,6 +819,10 @@ def _parse_node_for_arg(_required, action, choices, node, typ):
         )
         if len(maybe_choices) == len(node.elts):
             choices = maybe_choices
+            choice_types = frozenset(map(type, choices))
+            if len(choice_types) == 1 and choice_types <= {int, float, complex}:
+                # argparse compares `choices` with the converted value: numeric choices need their `type=`
+                typ = next(iter(choice_types)).__name__
     elif isinstance(node, Name):
         if node.id == "Optional":
             _required = False
